@@ -230,7 +230,11 @@ class AsyncTasks(Tasks):
             async def cancel_save():
                 """Cancel the save task."""
                 task.cancel()
-                await task
+                try:
+                    await task
+                except asyncio.CancelledError:
+                    # The task was cancelled before it had started to run.
+                    pass
 
             self._cancel_save = cancel_save
 
